@@ -63,7 +63,7 @@ func repoDir() string {
 
 // overlayFor builds the overlay map injecting harness sources for the given repo-relative package dirs.
 // overlayDeps: harness packages whose sources reference helpers overlaid into another repo package.
-var overlayDeps = map[string][]string{"pkg/dhcp": {"pkg/ebpf"}}
+var overlayDeps = map[string][]string{"pkg/dhcp": {"pkg/ebpf", "pkg/nat", "pkg/qos", "pkg/radius"}, "pkg/pppoe": {"pkg/radius"}}
 
 func overlayFor(pkgDirs []string, native bool) (map[string][]byte, error) {
 	ov := map[string][]byte{}
